@@ -321,14 +321,20 @@ def replay(rp):
         return bool(found)
     if kind == 'arclength':
         if rp.get('x') is None:
-            return True
+            return False
         x, y = float(Fraction(rp['x'])), float(Fraction(rp['y']))
         g = gamma.pw_gamma[rp['piece']]
         d = np.linalg.norm(g(x) - g(y))
         return abs(d - abs(x - y)) > 1e-9 * (1 + abs(x - y))
     if kind == 'eval':
         if rp.get('x') is None:
-            return True
+            # an exception on the symbolic run: reproduced only if the real code fails on real parameters
+            for xx in np.linspace(0.0, gamma.gamma_length, 33):
+                try:
+                    gamma.eval(float(xx))
+                except Exception:
+                    return True
+            return False
         x = float(Fraction(rp['x']))
         try:
             v = gamma.eval(x)
